@@ -738,9 +738,41 @@ func genScenario(r *rng, cold bool) *Scenario {
 	return sc
 }
 
+// genLayoutScenario: pre-compiled shared Callables that read object members, invoked by every
+// task several times on environments of EQUAL types whose objects are laid out differently
+// (struct / structR: the same fields declared in another order) or come from other carriers.
+var layoutSrcs = []string{
+	"o.id + n", "o.name + s", "lo[0].id + lo[1].id", "mo[\"u\"].name", "{a: o.id, b: o.tags, c: o.name}",
+	"[lo[0].name, lo[1].name]", "len(o.tags) + o.id", "if(b, o.id, lo[0].id) + mo[\"v\"].id", "string(o) + o.name",
+}
+
+func genLayoutScenario(r *rng) *Scenario {
+	sc := &Scenario{ColdFirst: r.chance(0.5)}
+	sc.Shared = []EngineSpec{{[]string{"closure", "closure", "vm", "vmcall", "interp", "dbg"}[r.intn(6)], false}}
+	np := 1 + r.intn(2)
+	for i := 0; i < np; i++ {
+		sc.Pre = append(sc.Pre, PreCompile{0, Prog{Src: layoutSrcs[r.intn(len(layoutSrcs))], Env: []string{"struct", "structR", "map"}[r.intn(3)]}})
+	}
+	envs := []string{"struct", "structR", "map", "structR", "struct3"}
+	k := 2 + r.intn(3)
+	for t := 0; t < k; t++ {
+		var ops []Op
+		n := 2 + r.intn(4)
+		for i := 0; i < n; i++ {
+			ops = append(ops, Op{K: "invoke", C: r.intn(np), CS: true, Env: envs[r.intn(len(envs))]})
+		}
+		sc.Tasks = append(sc.Tasks, ops)
+	}
+	sc.Sim = genSimConfig(r)
+	return sc
+}
+
 func genScenario0(r *rng, cold bool) *Scenario {
 	if !cold && r.chance(0.08) {
 		return genLazyScenario(r)
+	}
+	if !cold && r.chance(0.06) {
+		return genLayoutScenario(r)
 	}
 	if r.chance(0.07) {
 		return genRegisterScenario(r, cold)
@@ -832,7 +864,15 @@ func genScenario0(r *rng, cold bool) *Scenario {
 }
 
 func invokeEnv(r *rng, compiled string) string {
-	if r.chance(0.8) {
+	switch c := r.intn(10); {
+	case c < 5:
+		return compiled
+	case c < 8:
+		// an environment of the same types: other contents, another carrier, object fields
+		// declared in another order
+		if st := sameTyped[compiled]; len(st) > 0 {
+			return st[r.intn(len(st))]
+		}
 		return compiled
 	}
 	return envNames[r.intn(len(envNames))]
